@@ -476,7 +476,8 @@ class XMLResource(XMLResourceLoader):
             raise XMLResourceError(msg)
 
         if self.is_defused():
-            if fp.seekable() or isinstance(fp, (io.RawIOBase, io.BufferedIOBase)) and \
+            if fp.seekable() or \
+                    isinstance(fp, (io.RawIOBase, io.BufferedIOBase, io.TextIOBase)) and \
                     (self._opener is None or self.url is None):
                 # For seekable file-like objects or ones that can be wrapped in
                 # a buffered reader defuse with rewind option if no custom opener
